@@ -283,7 +283,9 @@ func Define[C any](id, sub string, check func(C, *R)) *Prop[C] {
 }
 
 // Eval runs the check on c, converting panics that escape the check into violations.
-func (p *Prop[C]) Eval(c C) (r *R) {
+func (p *Prop[C]) Eval(c C) (r *R) { return p.eval(c, true) }
+
+func (p *Prop[C]) eval(c C, post bool) (r *R) {
 	r = &R{}
 	defer func() {
 		if e := recover(); e != nil {
@@ -291,7 +293,7 @@ func (p *Prop[C]) Eval(c C) (r *R) {
 		}
 	}()
 	p.check(c, r)
-	if r.V == nil && !r.Skip {
+	if post && r.V == nil && !r.Skip {
 		for _, f := range PostEval {
 			if kind, msg := f(); kind != "" {
 				r.V = &Violation{Kind: kind, Msg: msg}
@@ -360,6 +362,72 @@ func (p *Prop[C]) Rapid(t *testing.T, gen func(*rapid.T) C) {
 		if r.V != nil {
 			path := p.save(c, r.V)
 			rt.Fatalf("VERIF-VIOLATION property=%s sub=%s kind=%s replay=%s\n%s", p.ID, p.Sub, r.V.Kind, path, r.V.Msg)
+		}
+	})
+}
+
+// Concurrent drives the check with BATCHES of rapid-generated cases that are evaluated at the same
+// time, one goroutine per case, released together, reps times per batch. Every check is a pure
+// function of its case and works on objects of its own, so logically the evaluations are
+// independent: a case that holds on its own and fails here has met state shared between
+// separate objects of the code under test (package-level scratch space, a pool whose buffers
+// are returned too early, a lazily filled cache or table read without synchronisation).
+// Each batch is first evaluated sequentially (an ordinary violation is reported the ordinary
+// way, with shrinking). A violation under concurrency is schedule-dependent: it is reported at
+// once through the outer testing.T with the failing case as replay file (which may pass when
+// replayed alone - the message says so) and is not handed to rapid for shrinking. The results
+// are recorded under the sub-check name "<sub>-concurrent".
+func (p *Prop[C]) Concurrent(t *testing.T, gen func(*rapid.T) C, batch, reps int) {
+	cp := Define(p.ID, p.Sub+"-concurrent", p.check)
+	failed := false
+	rapid.Check(t, func(rt *rapid.T) {
+		if failed {
+			return
+		}
+		cases := make([]C, batch)
+		for i := range cases {
+			cases[i] = gen(rt)
+		}
+		for _, c := range cases {
+			r := p.Eval(c)
+			if r.V != nil {
+				S.record(p.Sub, c, r)
+				path := p.save(c, r.V)
+				rt.Fatalf("VERIF-VIOLATION property=%s sub=%s kind=%s replay=%s\n%s", p.ID, p.Sub, r.V.Kind, path, r.V.Msg)
+			}
+		}
+		for rep := 0; rep < reps && !failed; rep++ {
+			results := make([]*R, batch)
+			start := make(chan struct{})
+			var wg sync.WaitGroup
+			for i := range cases {
+				wg.Add(1)
+				go func(i int) {
+					defer wg.Done()
+					<-start
+					results[i] = cp.eval(cases[i], false)
+				}(i)
+			}
+			close(start)
+			wg.Wait()
+			// hooks that look at state shared by all cases (guarded input slices) run once the
+			// batch has come to rest
+			for _, f := range PostEval {
+				if kind, msg := f(); kind != "" && results[0].V == nil {
+					results[0].V = &Violation{Kind: kind, Msg: msg + " (some case of the batch)"}
+				}
+			}
+			for i, r := range results {
+				if r.V != nil {
+					r.V = &Violation{Kind: "concurrent:" + r.V.Kind, Msg: fmt.Sprintf("the case holds when evaluated on its own and failed while %d other cases were evaluated at the same time on other goroutines (separate objects, so state is shared inside the code under test; schedule-dependent, may not reproduce from the saved case alone)\n%s", batch-1, r.V.Msg)}
+				}
+				S.record(cp.Sub, cases[i], r)
+				if r.V != nil && !failed {
+					failed = true
+					path := cp.save(cases[i], r.V)
+					t.Errorf("VERIF-VIOLATION property=%s sub=%s kind=%s replay=%s\n%s", cp.ID, cp.Sub, r.V.Kind, path, r.V.Msg)
+				}
+			}
 		}
 	})
 }
